@@ -236,6 +236,12 @@ def main(tier):
             pass
     for n, t in enumerate(stress_docs() + shape_docs()):
         cases.append({"id": "st%d" % n, "files": {"main.jst": b64(t.encode("latin1") if "\xff" in t else t.encode())}, "root": "main.jst"})
+    # sets of building blocks that share names and path prefixes (JSON-RPC next to HTTP on one prefix, tags at every level,
+    # types of every notation as bodies ...): most are accepted
+    import c01
+    bp = c01.block_pairs(thorough, rnd)
+    for n, (nm, t) in enumerate(bp if thorough else bp[sd % 3::3]):
+        cases.append(rel.case("stb%d" % n, t))
     obs = harness("run", cases)
     recs = []
     texts = {c["id"]: c for c in cases}
